@@ -44,6 +44,11 @@ transformations:
     rule_conditions:
       - type: logsource
         category: failcat
+  - id: ufile
+    type: file_placeholders
+    path: @VALUES@
+    filter: "^adm_"
+    include: [users]
   - id: utmpl
     type: add_condition
     template: true
@@ -52,7 +57,30 @@ transformations:
 """
 
 
+def _values_file() -> str:
+    """The external value list of the file_placeholders item (written when missing; every process of a run
+    - also the freshly started interpreters - derives the same path)."""
+    import tempfile
+
+    p = os.path.join(tempfile.gettempdir(), "verif_c15_values.txt")
+    if not os.path.exists(p):
+        with open(p + ".tmp", "w") as f:
+            f.write("adm_alice\nbob\nadm_carol\nsvc_backup\n")
+        os.replace(p + ".tmp", p)
+    return p
+
+
+def user_pipeline():
+    from sigma.processing.pipeline import ProcessingPipeline
+
+    return ProcessingPipeline.from_yaml(USER_PIPE.replace("@VALUES@", _values_file()), allow_external_sources=True)
+
+
 def doc(kind: str) -> dict:
+    if kind == "phfile":  # a placeholder filled from the external value list (filtered by the item)
+        d = rule_doc("ok1", 7)
+        d["detection"]["sel"] = {"fieldA|expand": "%users%"}
+        return d
     if kind == "neqok":
         d = rule_doc("ok1", 7)
         d["detection"]["condition"] = "not sel"
@@ -68,7 +96,7 @@ def doc(kind: str) -> dict:
     return rule_doc(kind, 7)
 
 
-PROBES = ("ok1", "okstate", "neqok", "ok2", "direct")
+PROBES = ("ok1", "okstate", "neqok", "ok2", "direct", "phfile")
 _CLS = None
 
 
@@ -109,7 +137,7 @@ def fresh_result(kind: str) -> dict:
     from sigma.processing.pipeline import ProcessingPipeline
     from sigma.rule import SigmaRule
 
-    b = backend_cls()(ProcessingPipeline.from_yaml(USER_PIPE))
+    b = backend_cls()(user_pipeline())
     return _res(lambda: b.convert_rule(SigmaRule.from_dict(doc(kind)), "state"))
 
 
@@ -119,12 +147,12 @@ def drive_case(case):
     from sigma.collection import SigmaCollection
 
     cls = backend_cls()
-    shared = ProcessingPipeline.from_yaml(USER_PIPE)
+    shared = user_pipeline()
     bk = {}
     log = []
     for op in case["hist"]:
         if op[0] == "new":
-            bk[op[1]] = cls(shared if op[2] else ProcessingPipeline.from_yaml(USER_PIPE))
+            bk[op[1]] = cls(shared if op[2] else user_pipeline())
         elif op[0] == "init":
             bk[op[1]].init_processing_pipeline("state")
         elif op[0] == "rule":
@@ -191,7 +219,7 @@ def run(tier: str, seed: int) -> int:
         distinct_nontrivial=nontrivial,
         rule="TLC (Gen_C15) enumerates every enabled history of <=2 (thorough 3) operations after creating backend A over "
         "(class pipeline: set_state, field mapping, strict mapping check; user pipeline: state-gated prefix, rule failure, "
-        "templated add_condition) {create backend A/B sharing the user pipeline object or not, init pipeline, convert a single rule / a collection "
+        "placeholders from an external value list with a filter, templated add_condition) {create backend A/B sharing the user pipeline object or not, init pipeline, convert a single rule / a collection "
         "of each kind incl. failures in the pipeline, on a placeholder, on a missing detection and inside negated "
         "not-equals rendering} plus seeded random walks of 3..7 operations, each followed by 5 probe rules (one/two conditions, state-setting, negated, one that names a mapping target "
         "directly and must fail the strict mapping check) on each "
